@@ -44,7 +44,7 @@ def _binary_types():
 
 
 TYPES = TYPES + [t for t in _binary_types() if t not in TYPES]
-RET_ONLY = ["x is string", "asserts x is string", "asserts x", "this", "Promise<[number, string]>"]
+RET_ONLY = ["x is string", "asserts x is string", "this is A0", "asserts x", "this", "Promise<[number, string]>", "asserts this is A0", "asserts this"]
 TPARAMS = ["<T>", "<T, U>", "<T extends A0>", "<T extends keyof A0 = 'a'>", "<const T>", "<T = {}>", "<in out T>", "<T extends (...a: any[]) => any>", "<T extends readonly unknown[]>", "<T,>"]
 TARGS = ["<number>", "<A0>", "<string, number>", "<Array<number>>", "<Map<string, Array<number>>>", "<{ a: number }>", "<typeof v0>", "<'a' | 'b'>", "<[number, string]>", "<(x: number) => void>"]
 MODS = ["public", "private", "protected", "readonly", "public readonly", "private readonly", "protected readonly", "override", "public override"]
@@ -134,7 +134,7 @@ def alphabet(kind, tier):
     if kind == "ann":
         return [": " + t for t in (TYPES[::3] if q else TYPES)]
     if kind == "ret":
-        return [": " + t for t in ((TYPES[1::4] + RET_ONLY[:2]) if q else TYPES + RET_ONLY)]
+        return [": " + t for t in ((TYPES[1::4] + RET_ONLY[:3]) if q else TYPES + RET_ONLY)]
     if kind == "catchann":
         return [": any", ": unknown"]
     if kind == "as":
